@@ -4,11 +4,17 @@ A program is a Python tree (tuples/lists) that is rendered twice from the same o
 S-expression for the Lean driver `drv_scope` and as Laythe source for the implementation.
 
 Node shapes (o = identifier-occurrence id, d = binder id; both unique per program):
-  ('lit', n) ('str', s) ('var', o, x) ('assign', o, x, e) ('op', kind, [args])
-  ('lam', d0, [(d, x)...], [stmts]) ('let', d, x, e) ('fn', d, f, d0, params, [stmts])
+  ('lit', n) ('str', s) ('nil',) ('var', o, x) ('assign', o, x, e) ('op', kind, [args])
+  ('lam', d0, [(d, x)...], [stmts]) ('let', d, x, e) ('letn', d, x) ('fn', d, f, d0, params, [stmts])
   ('if', c, [stmts], [stmts]) ('while', c, [stmts]) ('for', dIter, d, x, iter, [stmts])
   ('try', [stmts], d, x, o, 'Error', [stmts])
   ('class', d, c, oSup, 'Object', oName, dSuper, [methods]) ('method', kind, m, d0, params, [stmts])
+
+`('letn', d, x)` is `let x;` — a declaration WITHOUT initialiser.  Such a variable (type OPT: nil or an integer) is
+`nil` until something is assigned to it, in every storage class (module symbol, plain local, boxed local) and whoever
+looks first (the declaring scope or a closure).  OPT variables are only observed in ways that tell `nil` from anything
+else: `print(x)`, `x == nil` as a condition (lazy initialisation `if x == nil { x = e; }`), closures returning them
+(type F0N, lists of those LFN) whose result is printed.
 
 The iterable of a `for` is outside the scope of its item: it may mention an outer variable of the item's name and may
 contain function literals that do (the shape of the repaired finding D31 — judged by the Spec like everything else).
@@ -23,10 +29,14 @@ Known-defect signatures the generator stays away from (DESIGN §6 + this propert
 import re
 
 INT, F0, F1, MK, LF, LI, OBJ = "int", "f0", "f1", "mk", "lf", "li", "obj"
+OPT, F0N, LFN = "opt", "f0n", "lfn"      # nil-or-integer variable, closure returning one, list of such closures
 
 INT_NAMES = ["a", "b", "c", "d", "e", "n"]
 FUN_NAMES = ["f", "g", "h", "k"]
 LIST_NAMES = ["fs", "gs", "xs"]
+OPT_NAMES = ["u", "v", "w", "a", "b"]      # shares `a`, `b` with the integers: shadowing across the two kinds
+FUNN_NAMES = ["r", "s", "t"]
+LISTN_NAMES = ["us", "vs"]
 
 
 class Var:
@@ -54,6 +64,7 @@ class Gen:
         self.nclasses = 0
         self.nloops = 0
         self.module_names = set()
+        self.opt = True              # declarations without initialiser and their observations
 
     # -- ids and scopes ---------------------------------------------------------------------
     def fo(self):
@@ -152,7 +163,15 @@ class Gen:
         return ("lit", self.rng.randrange(0, 10))
 
     def e_cond(self):
+        opts = self.visible(OPT) if self.opt else []
+        if opts and self.rng.random() < 0.3:
+            self.features.add("cond-is-nil")
+            return self.is_nil(self.rng.choice(opts))
         return ("op", self.rng.choice(["lt", "lt", "eq"]), [self.e_int(1), self.e_int(1)])
+
+    def is_nil(self, v):
+        a, b = self.var(v), ("nil",)
+        return ("op", "eq", [a, b] if self.rng.random() < 0.8 else [b, a])
 
     def lam(self, ty):
         """A closure of type F0/F1/MK; its body is generated in a new function context."""
@@ -194,6 +213,8 @@ class Gen:
         return out
 
     def stmt(self):
+        if self.opt and self.rng.random() < 0.14:
+            return self.s_opt()
         r = self.rng.random()
         deep_ok = self.fdepth() < self.max_depth
         if r < 0.16:
@@ -242,6 +263,82 @@ class Gen:
         if r < 0.98 and self.rich and deep_ok and self.nclasses < 2 and self.fdepth() <= 2:
             return self.s_class()
         return [self.s_print()]
+
+    # -- declarations without initialiser ---------------------------------------------------------
+    def s_let_nil(self):
+        """`let x;`"""
+        name = self.fresh_name(OPT_NAMES)
+        d = self.fd()
+        self.declare(Var(name, OPT))
+        self.features.add("let-no-init" + ("-module" if len(self.scopes) == 1 else ""))
+        return ("letn", d, name)
+
+    def s_print_opt(self, v):
+        return ("op", "exprS", [("op", "call", [("var", self.fo(), "print"), self.var(v)])])
+
+    def lam_ret_opt(self, v):
+        """`|| { <stmts> return v; }` — a closure that hands out the OPT variable `v` (so it captures it)"""
+        d0 = self.fd()
+        self.funs.append(FunCtx(0, "lam"))
+        self.push()
+        body = self.stmts(self.rng.randrange(0, 2))
+        vis = [w for w in self.visible(OPT) if w.name == v.name]
+        body.append(("op", "ret", [self.var(vis[0]) if vis else ("nil",)]))
+        self.pop()
+        self.funs.pop()
+        return ("lam", d0, [], body)
+
+    def s_opt(self):
+        """one statement about nil-or-integer variables"""
+        opts = self.visible(OPT)
+        if not opts or self.rng.random() < 0.30:
+            # the declaration, often followed at once by a few uses (reads come before writes more often than not)
+            out = [self.s_let_nil()]
+            v = self.scopes[-1][-1]
+            for _ in range(self.rng.randrange(0, 3)):
+                if not self.spend():
+                    break
+                out += self.s_opt_use(v)
+            return out
+        return self.s_opt_use(self.rng.choice(opts))
+
+    def s_opt_use(self, v):
+        r = 0.30 + 0.70 * self.rng.random()
+        deep_ok = self.fdepth() < self.max_depth
+        if r < 0.45:
+            self.features.add("print-opt")
+            return [self.s_print_opt(v)]
+        if r < 0.57:
+            self.features.add("assign-opt")
+            return [("op", "exprS", [("assign", self.fo(), v.name, self.e_int())])]
+        if r < 0.62:
+            self.features.add("assign-opt-nil")
+            return [("op", "exprS", [("assign", self.fo(), v.name, ("nil",))])]
+        if r < 0.76:
+            # lazy initialisation: `if v == nil { v = e; … } else { … }`
+            self.features.add("lazy-init")
+            c = self.is_nil(v)
+            self.push()
+            t = [("op", "exprS", [("assign", self.fo(), v.name, self.e_int())])] + self.stmts(self.rng.randrange(0, 2))
+            self.pop()
+            return [("if", c, t, self.block(self.rng.randrange(0, 2)))]
+        if r < 0.90 and deep_ok:
+            # a closure handing the variable out: `let r = || { … return v; };`
+            self.features.add("closure-returns-opt")
+            name = self.fresh_name(FUNN_NAMES)
+            self.hidden.add(name)
+            e = self.lam_ret_opt(v)
+            self.hidden.discard(name)
+            d = self.fd()
+            self.declare(Var(name, F0N))
+            return [("let", d, name, e)]
+        fns = self.visible(F0N)
+        if fns:
+            self.features.add("call-closure-returning-opt")
+            f = self.rng.choice(fns)
+            return [("op", "exprS", [("op", "call", [("var", self.fo(), "print"), ("op", "call", [self.var(f)])])])]
+        self.features.add("print-opt")
+        return [self.s_print_opt(v)]
 
     def s_nodecl(self):
         w = self.visible(INT, writable=True)
@@ -315,16 +412,29 @@ class Gen:
         out = [("let", di, i, ("lit", 0))]
         self.declare(Var(i, INT, readonly=True))
         lst = None
-        if self.rng.random() < 0.7:
-            lst = self.fresh_name(LIST_NAMES)
+        optlist = self.opt and self.rng.random() < 0.3
+        if optlist or self.rng.random() < 0.7:
+            lst = self.fresh_name(LISTN_NAMES if optlist else LIST_NAMES)
             dl = self.fd()
             out.append(("let", dl, lst, ("op", "list", [])))
-            self.declare(Var(lst, LF))
+            self.declare(Var(lst, LFN if optlist else LF))
         k = self.rng.randrange(1, 4)
         cond = ("op", "lt", [("var", self.fo(), i), ("lit", k)])
         self.push()
         body = self.stmts(self.rng.randrange(0, 3))
-        if lst is not None:
+        if optlist:
+            # `let x; us.push(|| x); if i == j { x = e; }`: every iteration has its own variable, nil at first
+            self.features.add("closures-over-let-no-init-in-while-body")
+            body.append(self.s_let_nil())
+            v = self.scopes[-1][-1]
+            if self.rng.random() < 0.4:
+                body.append(self.s_print_opt(v))
+            body.append(("op", "exprS", [("op", "push", [("var", self.fo(), lst), self.lam_ret_opt(v)])]))
+            if self.rng.random() < 0.7:
+                c = ("op", "eq", [("var", self.fo(), i), ("lit", self.rng.randrange(0, k))])
+                body.append(("if", c, [("op", "exprS", [("assign", self.fo(), v.name, self.e_int())])], []))
+            body += self.stmts(self.rng.randrange(0, 2))
+        elif lst is not None:
             self.features.add("closures-in-while-body")
             if self.rng.random() < 0.7:
                 body.append(self.s_let_int())
@@ -522,9 +632,11 @@ class Gen:
         # observe everything that is still visible at the end
         for v in self.visible(INT):
             body.append(("op", "exprS", [("op", "call", [("var", self.fo(), "print"), self.var(v)])]))
-        for v in self.visible(F0):
+        for v in self.visible(OPT):
+            body.append(self.s_print_opt(v))
+        for v in self.visible(F0) + self.visible(F0N):
             body.append(("op", "exprS", [("op", "call", [("var", self.fo(), "print"), ("op", "call", [self.var(v)])])]))
-        for v in self.visible(LF):
+        for v in self.visible(LF) + self.visible(LFN):
             g = self.fresh_name(FUN_NAMES)
             dIter, d = self.fd(), self.fd()
             body.append(("for", dIter, d, g, self.var(v),
@@ -544,6 +656,10 @@ def sexp(n):
         return "(lit %d)" % n[1]
     if t == "str":
         return "(str %s)" % n[1]
+    if t == "nil":
+        return "(nil)"
+    if t == "letn":
+        return "(letn %d %s)" % (n[1], n[2])
     if t == "var":
         return "(var %d %s)" % (n[1], n[2])
     if t == "assign":
@@ -585,6 +701,8 @@ def src_expr(n, ind=0):
         return str(n[1]) if n[1] >= 0 else "(0 - %d)" % -n[1]
     if t == "str":
         return '"%s"' % n[1]
+    if t == "nil":
+        return "nil"
     if t == "var":
         return n[2]
     if t == "assign":
@@ -635,6 +753,8 @@ def src_stmt(n, ind):
         return p + "raise %s;\n" % src_expr(n[2][0], ind)
     if t == "let":
         return p + "let %s = %s;\n" % (n[2], src_expr(n[3], ind))
+    if t == "letn":
+        return p + "let %s;\n" % n[2]
     if t == "fn":
         return p + "fn %s(%s) %s\n" % (n[2], ", ".join(x for _, x in n[4]), src_block(n[5], ind))
     if t == "if":
